@@ -64,11 +64,15 @@ SchedTrace(c) ==
   First(<<
     <<"TraceStep", \A k \in DOMAIN c.steps : StepOK(Before(c, k), c.steps[k])>>,
     <<"TraceEndsInResult", FinalSched(c) = fin>>,
-    <<"IterSpace", IterBag(fin) = IterBag(c.init)>>,
+    <<"IterSpace", SameIterSpace(c.init, fin)>>,
     <<"FitsTemplate", Fits(c.template, fin)>>,
     <<"PureOutputStationary", Has(c.checks, "pos") => PureOutputStationary(fin, nt)>>,
     <<"MemoryFlexible", Has(c.checks, "mem") => MemoryFlexible(fin, nt, c.sizes)>>
   >>)
+
+(* the schedule the real dart-scheduler PASS attaches to an operation (several operations per module) visits the iteration
+   space of that operation: bounds from its own operand shapes, patterns as written *)
+SchedPair(c) == First(<< <<"IterSpace", SameIterSpace(c.init, c.result)>> >>)
 
 MatchCase(c) ==
   First(<< <<"MatchesIffSameSubspace", (c.got = 1) = PatMatches(c.tA, c.sA, c.tnd, c.snd)>> >>)
@@ -77,7 +81,7 @@ MatchCase(c) ==
 ApiStep(c) ==
   First(<<
     <<"ApiResult", StepOK(c.init, [act |-> c.act, a |-> c.a, b |-> c.b, result |-> c.result])>>,
-    <<"IterSpace", IterBag(c.result) = IterBag(c.init)>>
+    <<"IterSpace", SameIterSpace(c.init, c.result)>>
   >>)
 
 (* ---------------- C19: canonical forms and alternative representations ---------------- *)
@@ -105,7 +109,7 @@ ComposeCase(c) ==
 
 AccessPatCase(c) ==
   First(<<
-    <<"CanonicalizeMeaning", IterBag(c.canon) = IterBag(c.orig)>>,
+    <<"CanonicalizeMeaning", SameIterSpace(c.orig, c.canon)>>,
     <<"CanonicalizeIsDropUnit", c.canon = DropUnit(c.orig)>>,
     <<"CanonicalizeIdempotent", c.canon2 = c.canon>>,
     <<"InnerDims", c.inner = InnerDims(c.orig, c.k)>>
@@ -190,6 +194,7 @@ JudgeObj(c) ==
   CASE c.kind = "tsl" -> TslStatic(c)
     [] c.kind = "tsl_dyn" -> TslDynamic(c)
     [] c.kind = "schedtrace" -> SchedTrace(c)
+    [] c.kind = "schedpair" -> SchedPair(c)
     [] c.kind = "match" -> MatchCase(c)
     [] c.kind = "apistep" -> ApiStep(c)
     [] c.kind = "affcanon" -> AffCanon(c)
